@@ -51,6 +51,20 @@ not counted as a scheduled refusal -/
 def absurdBegin (gc : Nat) (c : Cmd) (m : Mem) : Mem := if gc = 1 ∧ c.sched.isEmpty then { m with sched := [true] } else m
 def absurdEnd (gc : Nat) (c : Cmd) (m : Mem) : Mem := if gc = 1 ∧ c.sched.isEmpty then { m with nrefused := 0 } else m
 
+/-- spec side of a slot: ideal content, and — tracked independently of the model — capacity,
+expansion factor and whether the array lives on the C library's allocators -/
+structure SSlot where
+  xs   : List Nat
+  cap  : Nat
+  f    : Float32
+  libc : Bool
+
+structure SpecSess where
+  slots  : List (Option SSlot) := [none, none, none, none]
+  it     : Option (Nat × Nat × Bool) := none            -- slot, position, removed
+  zit    : Option (Nat × Nat × Nat × Bool) := none      -- slots, position, removed
+  sparse : Bool := false
+
 structure Sess where
   slots  : List (Option Arr) := [none, none, none, none]
   sslots : List (Option (List Nat)) := [none, none, none, none]
@@ -62,6 +76,10 @@ structure Sess where
   blind : Bool := false      -- configuration too large to execute in the driver: lines are `?`
   /-- `obs=sparse` was given on the constructor line: no content sweep except in `observe` -/
   sparse : Bool := false
+  /-- slot just sorted by a comparator with ties (`sort_mod`): its obs on this line is tie-invariant -/
+  tie : Option Nat := none
+  /-- the independent spec pass (L1) -/
+  sp : SpecSess := {}
 
 def Sess.arr (s : Sess) (k : Nat) : Option Arr := (s.slots.getD k none)
 def Sess.lst (s : Sess) (k : Nat) : Option (List Nat) := (s.sslots.getD k none)
@@ -70,11 +88,18 @@ def Sess.setLst (s : Sess) (k : Nat) (a : Option (List Nat)) : Sess := { s with 
 
 def fmtLast (o : Option Nat) : String := match o with | some v => toString v | none => "-"
 
+/-- tie-invariant observation of a slot just sorted by the comparator "compare modulo 10" through `qsort`
+(whose order among equal keys is not promised by C): the key sequence in order and the multiset of the
+elements (printed in increasing order); the exact order is in `phys` (L3) only -/
+def fmtTie (k : Nat) (xs : List Nat) : String :=
+  s!" k{k}={fmtList (xs.map (· % 10))} ms{k}={fmtList (xs.mergeSort (fun a b => a ≤ b))} n{k}={xs.length}"
+
 def obsM (s : Sess) : String :=
   String.join <| (List.range NSLOT).map fun k =>
     match s.arr k with
     | none => ""
-    | some a => s!" a{k}={fmtList a.abs} n{k}={a.size} l{k}={fmtLast (a.getLast {}).2.1}"
+    | some a => if s.tie = some k then fmtTie k a.abs else
+      s!" a{k}={fmtList a.abs} n{k}={a.size} l{k}={fmtLast (a.getLast {}).2.1}"
 def obsS (s : Sess) : String :=
   String.join <| (List.range NSLOT).map fun k =>
     match s.lst k with
@@ -143,7 +168,224 @@ def specZip1 (op : String) (xs : List Nat) (pos : Nat) (rm : Bool) (x y : Nat) (
       (.ok, some (r1.2.1.getD 0, r2.2.1.getD 0), r2.2.2, pos, rm)
   | _ => (.ok, none, xs, pos, rm)
 
-def step (s : Sess) (c : Cmd) : Sess × String × String :=
+/-! ### the spec pass (L1): ideal lists, ideal cursors and — independently of the concrete model — the
+capacity of every array, tracked from the constructor arguments and the documented growth rule
+(`capacity * exp_factor`, at least `capacity + 1`; `CC_ERR_MAX_CAPACITY` when the next capacity is not
+representable; `trim` → `max size 1`; sub-array: its size; copies and filter: the source's capacity).
+Refusals come from the environment: `@fired` (how many refusals fired in the C run) for calls with one
+allocator request, the input schedule `fail=` position by position for `zip_iter_add`, whose two growth
+steps are separate requests.  Nothing here reads the model, so this pass also runs in sessions whose
+blocks the model pass cannot materialise (`M ?`). -/
+
+def SpecSess.get (s : SpecSess) (k : Nat) : Option SSlot := s.slots.getD k none
+def SpecSess.set (s : SpecSess) (k : Nat) (a : Option SSlot) : SpecSess := { s with slots := s.slots.set k a }
+def SpecSess.drop (s : SpecSess) (k : Nat) : SpecSess :=
+  let s := s.set k none
+  let s := match s.it with | some (j, _) => if j = k then { s with it := none } else s | none => s
+  match s.zit with | some (j, p, _) => if j = k ∨ p = k then { s with zit := none } else s | none => s
+
+def obsSp (s : SpecSess) (tie : Option Nat) : String :=
+  String.join <| (List.range NSLOT).map fun k =>
+    match s.get k with
+    | none => ""
+    | some sl => if tie = some k then fmtTie k sl.xs else
+      s!" a{k}={fmtList sl.xs} n{k}={sl.xs.length} l{k}={fmtLast (Spec.Seq.getLast sl.xs).2}"
+
+def finS (s : SpecSess) (hd : String) (sweep : Bool := false) (tie : Option Nat := none) : SpecSess × String :=
+  (s, s!"S {hd}{if s.sparse && !sweep then "" else obsSp s tie}")
+
+/-- the capacity the library asks for when a full array must grow -/
+def nextCap (f : Float32) (cap : Nat) : Nat :=
+  let g := growF f cap
+  if g ≤ cap then (if cap < Gen.CC_MAX_ELEMENTS / 2 then cap + 1 else Gen.CC_MAX_ELEMENTS) else g
+
+/-- room for one more element in a slot holding `len` elements, for a call with a single allocator
+request: blocking status (none: there is room, possibly after growing) and the capacity afterwards -/
+def roomFired (sl : SSlot) (len : Nat) (refused : Bool) : Option Stat × Nat :=
+  if len < sl.cap then (none, sl.cap) else
+  let nc := nextCap sl.f sl.cap
+  if sl.cap = Gen.CC_MAX_ELEMENTS ∨ nc > Gen.CC_MAX_ELEMENTS / 8 then (some .errMaxCapacity, sl.cap)
+  else if refused then (some .errAlloc, sl.cap) else (none, nc)
+
+/-- the same for one of several requests of a call: `calls` requests were made so far through the
+configured allocators; the next one is refused when the schedule says so or when it is larger than 2^40
+bytes (the harness allocator's limit); the C library's allocators never refuse -/
+def roomSched (sl : SSlot) (len : Nat) (sched : List Bool) (calls : Nat) : Option Stat × Nat × Nat :=
+  if len < sl.cap then (none, sl.cap, calls) else
+  let nc := nextCap sl.f sl.cap
+  if sl.cap = Gen.CC_MAX_ELEMENTS ∨ nc > Gen.CC_MAX_ELEMENTS / 8 then (some .errMaxCapacity, sl.cap, calls)
+  else if sl.libc then (none, nc, calls)
+  else if sched.getD calls false ∨ nc * 8 > 2 ^ 40 then (some .errAlloc, sl.cap, calls + 1) else (none, nc, calls + 1)
+
+def specStep (s : SpecSess) (c : Cmd) : SpecSess × String :=
+  let refused := c.fired > 0
+  let k := let k := c.nat "o" 0; if k < NSLOT then k else 0
+  let to := let t := c.nat "to" 1; if t < NSLOT then t else 1
+  let x := c.arg 0
+  let y := c.arg 1
+  let noout := c.nat "noout" 0 == 1 &&
+    ["replace_at", "remove", "remove_at", "remove_last", "it_remove", "it_replace", "zit_remove", "zit_replace"].contains c.op
+  let fmtOut := fun (st : Stat) (o : Option Nat) => if noout then fmtStat st else CC.Driver.ArrayD.fmtOut st o
+  let fmtOut2 := fun (st : Stat) (o : Option (Nat × Nat)) => if noout then fmtStat st else CC.Driver.ArrayD.fmtOut2 st o
+  -- constructors: `isNew`: configured triple with the line's cap= / exp=; else library defaults, C library triple
+  let build (isNew : Bool) : Stat × Option SSlot :=
+    let cap := if isNew then c.nat "cap" Gen.ARRAY_DEFAULT_CAPACITY else Gen.ARRAY_DEFAULT_CAPACITY
+    let f := effFactor (match (if isNew then c.str "exp" else none) with | some e => parseF32 e | none => defaultFactor)
+    let sst : Stat := if cap = 0 ∨ exGeF f (Gen.CC_MAX_ELEMENTS / cap) ∨ cap > Gen.CC_MAX_ELEMENTS / 8 then .errInvalidCapacity
+      else if refused then .errAlloc else .ok
+    (sst, if sst = .ok then some { xs := [], cap, f, libc := !isNew } else none)
+  match c.op with
+  | "new" | "new_default" =>
+    let (sst, sl) := build (c.op == "new")
+    finS { slots := [sl, none, none, none], sparse := c.str "obs" == some "sparse" } (fmtStat sst)
+  | _ =>
+  if s.slots.all Option.isNone then (s, "S st=- nosession") else
+  let msg (t : String) := finS s s!"st=- {t}"
+  match c.op with
+  | "observe" => finS s "st=-" true
+  | "mk_new" | "mk_new_default" =>
+    if (s.get to).isSome then msg "slotbusy" else
+    let (sst, sl) := build (c.op == "mk_new")
+    finS (s.set to sl) (fmtStat sst)
+  | "destroy" | "destroy_cb" =>
+    let log := (List.range NSLOT).foldl (fun acc j => match s.get j with | some sl => acc ++ sl.xs | none => acc) []
+    let s' := (List.range NSLOT).foldl (fun (acc : SpecSess) j => acc.drop j) s
+    if c.op == "destroy_cb" then finS s' s!"st=- cb={fmtList log}" else finS s' "st=-"
+  | "zit_new" =>
+    let p := c.nat "p" 1
+    if p ≥ NSLOT ∨ (s.get k).isNone ∨ (s.get p).isNone then finS { s with zit := none } "st=- noobj" else
+    finS { s with zit := some (k, p, 0, false) } "st=-"
+  | "zit_next" | "zit_remove" | "zit_add" | "zit_replace" | "zit_index" =>
+    match s.zit with
+    | some (k1, k2, pos, rm) =>
+      match s.get k1, s.get k2 with
+      | some s1, some s2 =>
+        if k1 = k2 then
+          -- the same array on both sides: the two list-level calls in sequence on one list
+          if c.op == "zit_index" then finS s s!"st=- out={Spec.Seq.wdec pos}" else
+          if c.op == "zit_add" then
+            let (b1, c1, n1) := roomSched s1 s1.xs.length c.sched 0
+            match b1 with
+            | some _ => finS s (fmtStat .errAlloc)
+            | none =>
+              let (b2, c2, _) := roomSched { s1 with cap := c1 } (s1.xs.length + 1) c.sched n1
+              match b2 with
+              | some st => finS (s.set k1 (some { s1 with cap := c1 })) (fmtStat st)
+              | none =>
+                let (_, _, xs', pos', rm') := specZip1 c.op s1.xs pos rm x y none
+                finS { s.set k1 (some { s1 with xs := xs', cap := c2 }) with zit := some (k1, k2, pos', rm') } (fmtStat .ok)
+          else
+            let (sst, so, xs', pos', rm') := specZip1 c.op s1.xs pos rm x y none
+            finS { s.set k1 (some { s1 with xs := xs' }) with zit := some (k1, k2, pos', rm') } (fmtOut2 sst so)
+        else
+        let zc : Spec.Seq.ZipCursor := { done1 := s1.xs.take pos, todo1 := s1.xs.drop pos, done2 := s2.xs.take pos,
+                                         todo2 := s2.xs.drop pos, removed := rm }
+        let put (s : SpecSess) (zc : Spec.Seq.ZipCursor) (c1 c2 : Nat) : SpecSess :=
+          { (s.set k1 (some { s1 with xs := zc.content1, cap := c1 })).set k2 (some { s2 with xs := zc.content2, cap := c2 }) with
+            zit := some (k1, k2, zc.done1.length, zc.removed) }
+        match c.op with
+        | "zit_next" => let (sst, so, zc') := zc.next; finS (put s zc' s1.cap s2.cap) (fmtOut2 sst so)
+        | "zit_remove" => let (sst, so, zc') := zc.remove; finS (put s zc' s1.cap s2.cap) (fmtOut2 sst so)
+        | "zit_add" =>
+          -- room in the first, then in the second array (each a separate allocator request); any
+          -- failure is reported as CC_ERR_ALLOC; then both insertions
+          let (b1, c1, n1) := roomSched s1 s1.xs.length c.sched 0
+          match b1 with
+          | some _ => finS s (fmtStat .errAlloc)
+          | none =>
+            let (b2, c2, _) := roomSched s2 s2.xs.length c.sched n1
+            match b2 with
+            | some _ => finS (put s zc c1 s2.cap) (fmtStat .errAlloc)
+            | none => let (sst, zc') := zc.add x y; finS (put s zc' c1 c2) (fmtStat sst)
+        | "zit_replace" => let (sst, so, zc') := zc.replace x y; finS (put s zc' s1.cap s2.cap) (fmtOut2 sst so)
+        | _ => finS s s!"st=- out={zc.index}"
+      | _, _ => msg "noiter"
+    | none => msg "noiter"
+  | "it_new" =>
+    if (s.get k).isNone then finS { s with it := none } "st=- noobj" else finS { s with it := some (k, 0, false) } "st=-"
+  | "it_next" | "it_remove" | "it_add" | "it_replace" | "it_index" =>
+    match s.it with
+    | some (k1, pos, rm) =>
+      match s.get k1 with
+      | some sl =>
+        let cur := curOf sl.xs pos rm
+        let put (s : SpecSess) (cu : Spec.Seq.Cursor) (cap : Nat) : SpecSess :=
+          { s.set k1 (some { sl with xs := cu.content, cap }) with it := some (k1, cu.done.length, cu.removed) }
+        match c.op with
+        | "it_next" => let (sst, so, cu) := cur.next; finS (put s cu sl.cap) (fmtOut sst so)
+        | "it_remove" => let (sst, so, cu) := cur.remove; finS (put s cu sl.cap) (fmtOut sst so)
+        | "it_add" =>
+          let (blk, cap') := roomFired sl sl.xs.length refused
+          match blk with
+          | some st => finS s (fmtStat st)
+          | none => let (sst, cu) := cur.add x; finS (put s cu cap') (fmtStat sst)
+        | "it_replace" => let (sst, so, cu) := cur.replace x; finS (put s cu sl.cap) (fmtOut sst so)
+        | _ => finS s s!"st=- out={cur.index}"
+      | none => msg "noiter"
+    | none => msg "noiter"
+  | _ =>
+  match s.get k with
+  | some sl =>
+    let xs := sl.xs
+    let upd (xs' : List Nat) (hd : String) (cap : Nat := sl.cap) (tie : Option Nat := none) :=
+      finS (s.set k (some { sl with xs := xs', cap })) hd false tie
+    match c.op with
+    | "drop" => finS (s.drop k) "st=-"
+    | "add" =>
+      let (blk, cap') := roomFired sl xs.length refused
+      match blk with
+      | some st => upd xs (fmtStat st)
+      | none => let (sst, xs') := Spec.Seq.add xs x; upd xs' (fmtStat sst) cap'
+    | "add_at" =>
+      let (blk, cap') := if y ≤ xs.length then roomFired sl xs.length refused else (none, sl.cap)
+      match blk with
+      | some st => upd xs (fmtStat st)
+      | none => let (sst, xs') := Spec.Seq.addAt xs x y; upd xs' (fmtStat sst) cap'
+    | "replace_at" => let (sst, so, xs') := Spec.Seq.replaceAt xs x y; upd xs' (fmtOut sst so)
+    | "swap_at" => let (sst, xs') := Spec.Seq.swapAt xs x y; upd xs' (fmtStat sst)
+    | "remove" => let (sst, so, xs') := Spec.Seq.remove xs x; upd xs' (fmtOut sst so)
+    | "remove_at" => let (sst, so, xs') := Spec.Seq.removeAt xs x; upd xs' (fmtOut sst so)
+    | "remove_last" => let (sst, so, xs') := Spec.Seq.removeLast xs; upd xs' (fmtOut sst so)
+    | "remove_all" => upd (Spec.Seq.removeAll xs) "st=-"
+    | "remove_all_free" => let (sn, xs') := Spec.Seq.removeAllFree xs; upd xs' s!"st=- freed={sn}"
+    | "reverse" => upd (Spec.Seq.reverse xs) "st=-"
+    | "filter_mut" => let (sst, xs') := Spec.Seq.filterMut predEven xs; upd xs' s!"{fmtStat sst} cb={fmtList xs.reverse}"
+    | "trim_capacity" =>
+      let want := if xs.length < 1 then 1 else xs.length
+      if xs.length = sl.cap ∨ want = sl.cap then upd xs (fmtStat .ok)
+      else if refused then upd xs (fmtStat .errAlloc) else upd xs (fmtStat .ok) want
+    | "get_at" => let (sst, so) := Spec.Seq.getAt xs x; upd xs (fmtOut sst so)
+    | "get_last" => let (sst, so) := Spec.Seq.getLast xs; upd xs (fmtOut sst so)
+    | "index_of" => let (sst, so) := Spec.Seq.indexOf xs x; upd xs (fmtOut sst so)
+    | "contains" => upd xs s!"st=- out={Spec.Seq.contains xs x}"
+    | "contains_value" => upd xs s!"st=- out={Spec.Seq.containsValue cmpMod10 xs x}"
+    | "size" => finS s s!"st=- out={xs.length}"
+    | "capacity" => finS s s!"st=- out={sl.cap}"
+    | "map" => upd xs s!"st=- cb={fmtList (Spec.Seq.mapVisit xs)}"
+    | "reduce" => let (slog, sr) := Spec.Seq.reduce reduceFn xs x; upd xs s!"st=- out={sr} cb={fmtList slog}"
+    | "sort" => upd (Spec.Seq.sort sortNum xs) "st=-"
+    -- ties: the order among equal keys is `qsort`'s business; L1 sees keys and multiset on this line
+    | "sort_mod" => upd (Spec.Seq.sort sortMod xs) "st=-" sl.cap (some k)
+    | "mk_sub" | "mk_copy_shallow" | "mk_copy_deep" | "mk_filter" =>
+      if (s.get to).isSome ∨ to = k then msg "slotbusy" else
+      let mk (sst : Stat) (sr : Option (List Nat)) (cap : Nat) (cb : String) :=
+        let sst := if sst = .ok ∧ refused then Stat.errAlloc else sst
+        let sr := if sst = .ok then sr else none
+        finS (s.set to (sr.map fun r => { sl with xs := r, cap := if c.op == "mk_sub" then r.length else cap })) s!"{fmtStat sst}{cb}"
+      match c.op with
+      | "mk_sub" => let (sst, sr) := Spec.Seq.subarray xs x y; mk sst sr 0 ""
+      | "mk_copy_shallow" => mk .ok (some (Spec.Seq.copyShallow xs)) sl.cap ""
+      | "mk_copy_deep" => mk .ok (some (Spec.Seq.copyDeep cpPlus xs)) sl.cap s!" cb={fmtList (if refused then [] else xs)}"
+      | _ =>
+        let (sst, sr) := Spec.Seq.filter predEven xs
+        mk sst sr sl.cap s!" cb={fmtList (if refused ∨ sst != .ok then [] else xs)}"
+    | _ => msg "badop"
+  | none => msg "noobj"
+
+/-! ### the model pass (L3).  It keeps ideal shadow lists only for its own bookkeeping; the `S` line it
+computes is discarded by `step`. -/
+def stepM (s : Sess) (c : Cmd) : Sess × String × String :=
+  let s := { s with tie := none }
   let m := s.mem.begin c.sched
   let refused := c.fired > 0
   let k := let k := c.nat "o" 0; if k < NSLOT then k else 0
@@ -374,7 +616,7 @@ def step (s : Sess) (c : Cmd) : Sess × String × String :=
       upd a' m (Spec.Seq.sort sortNum xs) "st=-" "st=-"
     | "sort_mod" =>
       let (a', m) := a.sort sortMod s.mem
-      upd a' m (Spec.Seq.sort sortMod xs) "st=-" "st=-"
+      fin { (s.setArr k (some a')).setLst k (some (Spec.Seq.sort sortMod xs)) with mem := m, tie := some k } "st=-" "st=-"
     | "mk_sub" | "mk_copy_shallow" | "mk_copy_deep" | "mk_filter" =>
       if (s.arr to).isSome ∨ to = k then msg "slotbusy" else
       let mk (st : Stat) (r : Option Arr) (m : Mem) (sst : Stat) (sr : Option (List Nat)) (cbS cbM : String) :=
@@ -398,5 +640,12 @@ def step (s : Sess) (c : Cmd) : Sess × String × String :=
         mk st r m sst sr s!" cb={fmtList (if refused ∨ sst != .ok then [] else xs)}" s!" cb={fmtList log}"
     | _ => msg "badop"
   | _, _ => msg "noobj"
+
+/-- one line: the spec pass (S, L1) and the model pass (M, L3) run side by side; the spec pass never
+sees the model, and keeps running when the model pass has gone blind -/
+def step (s : Sess) (c : Cmd) : Sess × String × String :=
+  let (sp', lineS) := specStep s.sp c
+  let (s', _, lineM) := stepM s c
+  ({ s' with sp := sp' }, lineS, lineM)
 
 end CC.Driver.ArrayD
